@@ -15,7 +15,7 @@ def chk(pid, text, note, tech, ref):
 
 OWN = {
  "C20": chk("C20",
-  "All six rules are Lean theorems over ALL finite event lists from all session starts, about a transition function that is regenerated from btok_pwd.c on every run; the regenerated model is compared with the compiled function on its complete (raw bit-field) domain. Complete for this property.",
+  "All six rules, plus the counting form of the PUK rule (at most ten counted wrong PUKs in every history without a correct one, then puk0 for ever) and monotonicity of the PIN state outside accepted unlock events, are Lean theorems over ALL finite event lists from all session starts, about a transition function that is regenerated from btok_pwd.c on every run; the regenerated model is compared with the compiled function on its complete (raw bit-field) domain. Complete for this property.",
   "Trusted: Lean kernel; axioms propext/Classical.choice/Quot.sound at most; xlate/x_pwd.py (validated each run by the exhaustive 32x8x16 table comparison); the C compiler for the bit-field semantics.",
   "Lean 4 proof over a model regenerated from source + exhaustive differential", "DESIGN.md §3 C20"),
  "C18": chk("C18",
